@@ -1,10 +1,11 @@
-import NdnProofs.Lemmas.PitRun
+import NdnProofs.Lemmas.PitTies
 import NdnModel.Gate
 /-!
 # C05 — nothing that requires validation reaches the application unvalidated
 
 **Data side.** Theorems about `Ndn.Pit.run` (the pending-Interest model of C03, which carries the validator
-supplied with each Interest as a script `(verdict, latency)`), for every event history and both front-ends.
+supplied with each Interest as a script `(verdict, latency)`), for every event history - lifetime 0, late awaits,
+`no_response` and the linearisations of same-turn ties included - and both front-ends.
 Specification vocabulary: `Accepting` (the verdicts that accept: `PASS`, `ALLOW_BYPASS`; legacy: a true value),
 `reported` (the verdict a `ValidationFailure` carries), `TakenAt` / `Justified` from `PitSpec`.
 
@@ -35,64 +36,89 @@ theorem outcome_data_iff (fe : FrontEnd) (v : Verdict) (d : Nat) (o : Outcome) (
     (h : validatorOutcome fe v d = some o) : o = .data d' ↔ (d' = d ∧ Accepting v) := by
   cases fe <;> cases v <;> simp [validatorOutcome] at h <;> subst h <;> simp [Accepting] <;> omega
 
-/-- **data_only_if_accepted.** If the awaitable returned the content of Data `d` then a Data with that content matching
-    the Interest arrived while it was waiting and before its deadline, and the validator supplied with the Interest
-    accepted it (verdict `PASS` / `ALLOW_BYPASS`; legacy: true); the result was delivered when the validator finished
-    (arrival + latency), and in the current front-end that was before the deadline.  (In the legacy front-end the
-    last clause fails: finding F15, see the counterexample below.) -/
-theorem data_only_if_accepted (fe : FrontEnd) (evs : List Ev) (hwf : ∀ ev ∈ evs, WFEv ev) (i : Nat) (I : Interest)
+/-- **data_only_if_accepted.** If the awaitable returned the content of Data `d` then - in every history: lifetime 0,
+    late awaits and same-turn ties included - a Data with that content matching the Interest arrived while it was
+    waiting and not after its deadline (`TakenAt`, at time `at_`), and the validator supplied with the Interest
+    accepted it (verdict `PASS` / `ALLOW_BYPASS`; legacy: true).  The validator was started at `vstart` (current
+    front-end: when the Data came; legacy: then or, when nobody was awaiting yet, at the first await), the future
+    was resolved when it finished (`t0` = start + latency) - in the current front-end before the deadline, or in
+    the instant the Data came - and the caller had the payload at `max t0 awaitAt`.  In a history without ties the
+    Data came strictly before the deadline and (current front-end) so did the validator's answer.
+    (In the legacy front-end the last clause fails: finding F15, see the counterexample below.) -/
+theorem data_only_if_accepted (fe : FrontEnd) (evs : List Ev) (i : Nat) (I : Interest)
     (d t : Nat) (hi : (run fe evs).ints[i]? = some I) (hs : (run fe evs).sts[i]? = some (.done (.data d) t)) :
-    Accepting I.verdict ∧ ∃ at_, TakenAt fe evs i I.toReq d at_ ∧ t = at_ + I.lat ∧ (fe = .v2 → t < I.deadline) := by
+    Accepting I.verdict ∧ ∃ at_ t0, TakenAt fe evs i I.toReq d at_ ∧ t0 = vstart fe at_ I.toReq + I.lat ∧
+      t = max t0 I.awaitAt ∧ (fe = .v2 → t0 < I.deadline ∨ I.lat = 0) ∧
+      (NoTie evs → at_ < I.deadline ∧ (fe = .v2 → t0 < I.deadline)) := by
   have href := run_refines fe evs
-  have hJ := spec_justified fe evs hwf i I.toReq _ (by rw [← href]; simp [abs, hi]) (by rw [← href]; exact hs)
-  obtain ⟨d', a, h1, h2, h3, h4⟩ := hJ
+  have hr : (Spec.run fe evs).reqs[i]? = some I.toReq := by rw [← href]; simp [abs, hi]
+  have hJ := spec_justified fe evs i I.toReq _ hr (by rw [← href]; exact hs)
+  obtain ⟨t0, ⟨d', a, h1, h2, h3, h4⟩, ht⟩ := hJ
   obtain ⟨h5, h6⟩ := (outcome_data_iff fe _ d' _ d h3).mp rfl
   subst h5
-  exact ⟨h6, a, h1, h2, h4⟩
+  refine ⟨h6, a, t0, h1, h2, ht, h4, fun hn => ?_⟩
+  have hlt := taken_before_deadline fe evs hn hr h1
+  refine ⟨hlt, fun hfe => ?_⟩
+  rcases h4 hfe with h | h
+  · exact h
+  · subst hfe
+    have h' : I.lat = 0 := h
+    have : vstart .v2 a I.toReq = a := rfl
+    have hlt' : a < I.deadline := hlt
+    omega
 
 /-- **other_verdict_failure (what a failure carries).** A `ValidationFailure` carries the Data that was taken for this
-    Interest (arrived while it was waiting, matching, before the deadline) and the verdict of the supplied validator,
-    which was not an accepting one. -/
-theorem other_verdict_failure (fe : FrontEnd) (evs : List Ev) (hwf : ∀ ev ∈ evs, WFEv ev) (i : Nat) (I : Interest)
+    Interest (arrived while it was waiting, matching, not after the deadline) and the verdict of the supplied validator,
+    which was not an accepting one; timing as in `data_only_if_accepted`. -/
+theorem other_verdict_failure (fe : FrontEnd) (evs : List Ev) (i : Nat) (I : Interest)
     (d t : Nat) (v' : Verdict) (hi : (run fe evs).ints[i]? = some I)
     (hs : (run fe evs).sts[i]? = some (.done (.valFail d v') t)) :
     ¬ Accepting I.verdict ∧ v' = reported fe I.verdict ∧
-    ∃ at_, TakenAt fe evs i I.toReq d at_ ∧ t = at_ + I.lat ∧ (fe = .v2 → t < I.deadline) := by
+    ∃ at_ t0, TakenAt fe evs i I.toReq d at_ ∧ t0 = vstart fe at_ I.toReq + I.lat ∧ t = max t0 I.awaitAt ∧
+      (fe = .v2 → t0 < I.deadline ∨ I.lat = 0) ∧ (NoTie evs → at_ < I.deadline) := by
   have href := run_refines fe evs
-  have hJ := spec_justified fe evs hwf i I.toReq _ (by rw [← href]; simp [abs, hi]) (by rw [← href]; exact hs)
-  obtain ⟨d', a, h1, h2, h3, h4⟩ := hJ
+  have hr : (Spec.run fe evs).reqs[i]? = some I.toReq := by rw [← href]; simp [abs, hi]
+  have hJ := spec_justified fe evs i I.toReq _ hr (by rw [← href]; exact hs)
+  obtain ⟨t0, ⟨d', a, h1, h2, h3, h4⟩, ht⟩ := hJ
   have hv : d' = d ∧ ¬ Accepting I.verdict ∧ v' = reported fe I.verdict := by
     have h3' : validatorOutcome fe I.verdict d' = some (.valFail d v') := h3
     revert h3'
     cases fe <;> cases I.verdict <;> simp [validatorOutcome, Accepting, reported] <;> intro a b <;> simp [a, b]
   obtain ⟨h5, h6, h7⟩ := hv
   subst h5
-  exact ⟨h6, h7, a, h1, h2, h4⟩
+  exact ⟨h6, h7, a, t0, h1, h2, ht, h4, fun hn => taken_before_deadline fe evs hn hr h1⟩
 
 /-- **other_verdict_failure (every other verdict fails).** Current front-end, all five `ValidResult` values by cases:
-    when a matching Data reaches a waiting Interest whose validator answers at once, the Interest finishes in the same
-    instant - with the payload for `PASS` / `ALLOW_BYPASS`, with a validation failure carrying this Data and this
-    verdict for `FAIL` / `TIMEOUT` / `SILENCE`. -/
+    when a matching Data reaches a waiting Interest whose validator answers at once, the future is resolved in the
+    same instant (`resolve`: the awaiting caller finishes now, a caller that awaits later finds the result then) -
+    with the payload for `PASS` / `ALLOW_BYPASS`, with a validation failure carrying this Data and this
+    verdict for `FAIL` / `TIMEOUT` / `SILENCE` - and for anything else a validator may hand back (`other`: `False`,
+    `None`, `0`, `True`, a string ...: only the two accepting members of `ValidResult` deliver). -/
 theorem every_verdict_decides (evs : List Ev) (nm : Name) (dg d : Nat) (i : Nat) (I : Interest)
     (hi : (run .v2 evs).ints[i]? = some I) (hs : (run .v2 evs).sts[i]? = some .waiting)
     (hm : Matches I.toReq nm dg) (hl : I.lat = 0) :
     (I.verdict = .pass ∨ I.verdict = .allowBypass →
-      (run .v2 (evs ++ [.data nm dg d])).sts[i]? = some (.done (.data d) (run .v2 evs).clock)) ∧
-    (I.verdict = .fail ∨ I.verdict = .timeout ∨ I.verdict = .silence →
-      (run .v2 (evs ++ [.data nm dg d])).sts[i]? = some (.done (.valFail d I.verdict) (run .v2 evs).clock)) := by
+      (run .v2 (evs ++ [.data nm dg d])).sts[i]? = some (resolve (run .v2 evs).clock I.toReq (.data d))) ∧
+    (I.verdict = .fail ∨ I.verdict = .timeout ∨ I.verdict = .silence ∨ I.verdict = .other →
+      (run .v2 (evs ++ [.data nm dg d])).sts[i]? =
+        some (resolve (run .v2 evs).clock I.toReq (.valFail d I.verdict))) := by
   have h := (step_old (inv_run .v2 evs) .v2 (.data nm dg d) hi hs).2.1
   rw [← run_snoc] at h
   have hl' : I.toReq.lat = 0 := hl
-  simp only [specReact, hm, and_self, if_true, taken, hl'] at h
+  simp only [specReact, hm, and_self, if_true, taken, hl', vstart, Nat.le_refl] at h
   constructor
   · intro hv
     rcases hv with hv | hv <;>
     · have hv' : I.toReq.verdict = _ := hv
       rw [h, hv']; rfl
   · intro hv
-    rcases hv with hv | hv | hv <;>
+    rcases hv with hv | hv | hv | hv <;>
     · have hv' : I.toReq.verdict = _ := hv
       rw [h, hv']; rfl
+
+/-- an awaiting caller (the usual case: `await app.express(...)`) finishes in that same instant -/
+theorem resolve_awaited (now : Nat) (r : Req) (o : Outcome) (h : r.awaitAt ≤ now) : resolve now r o = .done o now := by
+  simp [resolve, h]
 
 /-- **validator_late_timeout.** Current front-end: an Interest whose validator is still running when the deadline is
     reached (it would finish at or after the deadline) times out at the deadline - the later answer of the validator is
@@ -113,12 +139,25 @@ theorem validator_late_timeout (evs : List Ev) (t : Nat) (i : Nat) (I : Interest
     cases validatorOutcome .v2 I.toReq.verdict d <;> simp [hlate', hd']
   exact done_stable .v2 (evs ++ [.tick t]) evs' i _ _ h2
 
+/-- **ties.** Whichever way the events of a turn are ordered (packet before or after the timers of its instant, the
+    packets of a burst in any order): a payload is returned only if the supplied validator accepted that Data, and a
+    validation failure only if it did not - for every state `reachable` over a history of turns, i.e. for every
+    linearisation. -/
+theorem tie_data_only_if_accepted (fe : FrontEnd) (h : List Turn) : ∀ σ ∈ reachable fe h,
+    ∀ (i : Nat) (I : Interest) (d t : Nat), σ.ints[i]? = some I →
+      (σ.sts[i]? = some (IState.done (.data d) t) → Accepting I.verdict) ∧
+      (∀ v', σ.sts[i]? = some (IState.done (.valFail d v') t) → ¬ Accepting I.verdict ∧ v' = reported fe I.verdict) := by
+  intro σ hσ i I d t hi
+  obtain ⟨l, _, rfl⟩ := (mem_reachable fe h σ).mp hσ
+  exact ⟨fun hs => (data_only_if_accepted fe l i I d t hi hs).1,
+    fun v' hs => ⟨(other_verdict_failure fe l i I d t v' hi hs).1, (other_verdict_failure fe l i I d t v' hi hs).2.1⟩⟩
+
 /-- Finding F15 (legacy front-end): the validator runs after `wait_for`, so a validator that outlives the lifetime
     still returns the payload - lifetime 100, validator latency 300, payload returned at 300. -/
-example : (run .v1 [.express [1] none false 100 .pass 300, .data [1] 1 0, .tick 1000]).sts =
+example : (run .v1 [.express [1] none false 100 .pass 300 0 false, .data [1] 1 0, .tick 1000]).sts =
     [.done (.data 0) 300] := by decide
 /-- the same history in the current front-end: timeout at the deadline -/
-example : (run .v2 [.express [1] none false 100 .pass 300, .data [1] 1 0, .tick 1000]).sts =
+example : (run .v2 [.express [1] none false 100 .pass 300 0 false, .data [1] 1 0, .tick 1000]).sts =
     [.done .timeout 100] := by decide
 
 /-! ### incoming Interests -/
@@ -193,13 +232,29 @@ theorem plain_interest_no_validator (fe : FrontEnd) (dflt : Verdict) (p : IntPkt
 /-! ### the hypotheses are satisfiable -/
 
 example : Act.handle ∈ onInterest .v2 .fail ⟨true, true, true⟩ (.handler (some .allowBypass)) := by decide
+-- a route validator that hands back a non-`ValidResult` value (`False`, `None`, ...) keeps the Interest out
+example : onInterest .v2 .pass ⟨true, true, true⟩ (.handler (some .other)) = [.digestCheck, .validate] := by decide
+example : (run .v2 [.express [1] none false 100 .other 0 0 false, .data [1] 1 5]).sts = [.done (.valFail 5 .other) 0] := by
+  decide
 example : Act.handle ∈ onInterest .v1 .pass ⟨true, true, true⟩ (.handler none) := by decide
 example : onInterest .v2 .pass ⟨true, false, true⟩ (.handler none) = [.digestCheck] := by decide
 example : onInterest .v1 .fail ⟨true, false, true⟩ (.handler none) = [.digestCheck, .handle] := by decide
-example : (run .v2 [.express [1] none false 100 .silence 0, .data [1] 1 5]).sts = [.done (.valFail 5 .silence) 0] := by
+example : (run .v2 [.express [1] none false 100 .silence 0 0 false, .data [1] 1 5]).sts = [.done (.valFail 5 .silence) 0] := by
   decide
-example : (run .v2 [.express [1] none false 100 .raiseTimeout 20, .data [1] 1 5, .tick 50]).sts =
+example : (run .v2 [.express [1] none false 100 .raiseTimeout 20 0 false, .data [1] 1 5, .tick 50]).sts =
     [.done (.valFail 5 .timeout) 20] := by decide
-example : (run .v2 [.express [1] none false 100 .pass 300, .data [1] 1 0]).sts = [.validating 0 300] := by decide
+example : (run .v2 [.express [1] none false 100 .pass 300 0 false, .data [1] 1 0]).sts = [.validating 0 300] := by decide
+-- a late await does not let a rejected Data through: the failure is held and raised at the first await
+example : (run .v2 [.express [1] none false 100 .fail 0 60 false, .tick 20, .data [1] 1 5, .tick 500]).sts =
+    [.done (.valFail 5 .fail) 60] := by decide
+-- legacy, late await: the validator is consulted at the first await, and its verdict decides
+example : (run .v1 [.express [1] none false 100 .fail 0 60 false, .tick 20, .data [1] 1 5, .tick 500]).sts =
+    [.done (.valFail 5 .fail) 60] ∧
+    (run .v1 [.express [1] none false 100 .fail 0 60 false, .tick 20, .data [1] 1 5, .tick 500]).vcalls = [(0, 5, 60)] := by
+  decide
+-- a tie (Data in the turn of the deadline): the payload is allowed only through the validator
+example : allowed .v2 [⟨0, [.express [1] none false 100 .fail 0 0 false]⟩, ⟨100, [.data [1] 1 5]⟩] =
+    [[.done .timeout 100], [.done (.valFail 5 .fail) 100], [.done .timeout 100], [.done (.valFail 5 .fail) 100]] := by
+  decide
 
 end Ndn.C05
